@@ -138,9 +138,12 @@ def apalache_inductive(module_path, workdir, cinit="ConstInit", timeout=900):
     """Apalache: Init => IndInv (length 0), IndInv /\\ Next => IndInv' (length 1 from IndInit), IndInv => Implied.
     Returns dict(step -> 'ok' | 'error' | 'unavailable')."""
     fresh_dir(workdir)
-    for f in os.listdir(os.path.dirname(module_path)):
-        if f.endswith(".tla"):
-            shutil.copy(os.path.join(os.path.dirname(module_path), f), workdir)
+    # the typed module lives in spec/apalache (it EXTENDS the Apalache module, which SANY/TLC do not know);
+    # the modules it extends are taken from spec/
+    for d in (SPEC, os.path.dirname(module_path)):
+        for f in os.listdir(d):
+            if f.endswith(".tla"):
+                shutil.copy(os.path.join(d, f), workdir)
     mod = os.path.basename(module_path)
     res = {}
     steps = [("init_implies_inv", ["--init=Init", "--inv=IndInv", "--length=0"]),
